@@ -146,6 +146,19 @@ Definition view_ok (c : cfg) (calls_before : list K) (r : rcache) (ob : obs) : b
   && list_eqb Nat.eqb (rev (o_calls ob) ++ calls_before) (r_calls r)
   && match o_items ob with None => true | Some l => same_map l (r_items r) end.
 
+(* c_i.update(c_j) for two different caches: the source's keys are visited in
+   some order (the one observed); each visit is a lookup on the source (a hit;
+   for an LRU a use) followed by an assignment on the target *)
+Fixpoint r_upd_from (c : cfg) (ri rj : rcache) (ks : list K) : rcache * rcache * res unit :=
+  match ks with
+  | [] => (ri, rj, Ok tt)
+  | k :: rest =>
+      match r_lookup c rj k with
+      | (rj', Some v) => r_upd_from c (r_set c ri k v) rj' rest
+      | (rj', None) => (ri, rj', Raise KeyError)
+      end
+  end.
+
 Definition spec_ok_step (c : cfg) (rh : list rcache) (o : hop) (ob : obs) : option (list rcache) :=
   match o with
   | On i o1 =>
@@ -173,6 +186,26 @@ Definition spec_ok_step (c : cfg) (rh : list rcache) (o : hop) (ob : obs) : opti
           if res_eqb outv_eqb (o_out ob) (Ok (OBool (same_map (r_items r) (r_items r2))))
              && view_ok c (r_calls r) r ob
           then Some rh else None
+      | _, _ => None
+      end
+  | UpdateFrom i j =>
+      match nth_error rh i, nth_error rh j with
+      | Some ri, Some rj =>
+          match o_out ob with
+          | Ok (OKeys order) =>
+              (* the iteration order of the source is not specified: any order of its keys *)
+              if same_keys order (r_items rj) then
+                if Nat.eqb i j
+                then (if view_ok c (r_calls ri) ri ob then Some rh else None)   (* update with itself: nothing *)
+                else match r_upd_from c ri rj order with
+                     | (ri', rj', Ok _) =>
+                         if view_ok c (r_calls ri) ri' ob
+                         then Some (upd_nth i ri' (upd_nth j rj' rh)) else None
+                     | (_, _, Raise _) => None
+                     end
+              else None
+          | _ => None
+          end
       | _, _ => None
       end
   end.
